@@ -61,11 +61,13 @@ ASSUMPTIONS = [
     "Sequence._mapped / constructors are exercised, not modelled",
     "projection_denotes assumes the aligned row contains every residue of the feature (true for a row of the whole "
     "sequence); the own-row slice of alignment features is exercised against a column oracle",
-    "Sequence.add_feature is NOT exercised (features are loaded into the db in absolute coordinates). It stores the "
-    "view-relative spans it is given as absolute ones, so on any view with a non-zero annotation_offset -- which "
-    "includes every sliced view, annotation_offset being the view's parent_start -- the added feature moves "
-    "(hand replay: s[3:9].add_feature(spans=[(1,3)]) returns 'AC' but the same view's get_features() does not return "
-    "it and the parent reads 'CG'); candidate defect, not a known finding",
+    "Sequence.add_feature on views is modelled (Model/FeatureAdd.lean, addfeature correspondence) and exercised (added stream); it is "
+    "not translated by c04_feature2lean",
+    "the contiguous form get_slice(allow_gaps=True) is modelled (getSliceContig) and tied by correspondence; its theorems are at index / "
+    "residue level and are not composed with featureOnView; get_slice(complete=True) is checked only for wholly retained features "
+    "(it raises by design otherwise); as_one_span / shadow / without_lost_spans are not exercised",
+    "translator conventions (c04_feature2lean B1-B5): min/max of an empty array = 0, a missing strand reads as '+', numpy views are copied, "
+    "Span's length >= 0 assertion and the `_annotation_db is None` guard of get_features are not modelled",
     "get_slice() of new-style Sequences differs from the model whenever the SeqView carries an offset "
     "(new_sequence.Sequence._mapped single-span branch; open finding): the 'one model for old and new' claim does not "
     "hold for _mapped",
